@@ -245,25 +245,31 @@ def parked_in_engine(hang):
 
 
 # --------------------------------------------------------------------------- M1
-M1_QUICK = [("MC_CommitQueue_quick.cfg", "safety"), ("MC_CommitQueue_live_quick.cfg", "liveness"),
-            ("MC_CommitQueue_asis.cfg", "asis")]
-M1_THOROUGH = [("MC_CommitQueue_live.cfg", "liveness"), ("MC_CommitQueue.cfg", "safety"),
-               ("MC_CommitQueue_noclose.cfg", "safety"), ("MC_CommitQueue_live_noclose.cfg", "liveness"),
-               ("MC_CommitQueue_quick.cfg", "coverage"),
-               ("MC_CommitQueue_asis.cfg", "asis"), ("MC_CommitQueue_live_asis.cfg", "asis")]
+# C34 needs the safety half (FIFO, ack-once, errors have no effect), C37 deadlock freedom and liveness
+M1_PLAN = {
+    ("C34", "quick"): [("MC_CommitQueue_quick.cfg", "safety"), ("MC_CommitQueue_asis.cfg", "asis")],
+    ("C37", "quick"): [("MC_CommitQueue_live_quick.cfg", "liveness"), ("MC_CommitQueue_quick.cfg", "safety"),
+                       ("MC_CommitQueue_asis.cfg", "asis")],
+    ("C34", "thorough"): [("MC_CommitQueue.cfg", "safety"), ("MC_CommitQueue_noclose.cfg", "safety"),
+                          ("MC_CommitQueue_quick.cfg", "coverage"), ("MC_CommitQueue_asis.cfg", "asis")],
+    ("C37", "thorough"): [("MC_CommitQueue_live.cfg", "liveness"), ("MC_CommitQueue_live_noclose.cfg", "liveness"),
+                          ("MC_CommitQueue_noclose.cfg", "safety"), ("MC_CommitQueue_quick.cfg", "coverage"),
+                          ("MC_CommitQueue_asis.cfg", "asis"), ("MC_CommitQueue_live_asis.cfg", "asis")],
+}
 UNREACHABLE_BY_DESIGN = {"k_dq1", "k_dq2"}      # the drain order of the recorded deviation
 
 
 def run_m1(ctx, out):
     """TLC runs (own threads: the driver runs meanwhile). out: list of (cfg, role, result | exception)."""
-    plan = M1_QUICK if ctx.tier == "quick" else M1_THOROUGH
-    per = max(2, ctx.workers // 3)
+    plan = M1_PLAN[(ctx.pid, "quick" if ctx.tier == "quick" else "thorough")]
+    per = max(2, ctx.workers // 4)
+    big = max(2, ctx.workers // 2)          # the first run of a plan is its long pole
     sem = threading.Semaphore(3)
 
     def one(cfg, role):
         with sem:
             try:
-                r = ctx.tlc("CommitQueue", cfg, workers=per, timeout=1500 if ctx.tier == "quick" else 7200,
+                r = ctx.tlc("CommitQueue", cfg, workers=(big if (cfg, role) == plan[0] else per), timeout=1500 if ctx.tier == "quick" else 7200,
                             coverage=(role == "coverage"))
                 out.append((cfg, role, r))
             except Exception as e:  # noqa
@@ -279,6 +285,9 @@ def judge_m1(ctx, results):
     for cfg, role, r in results:
         if isinstance(r, Exception):
             raise Undecided("M1 %s: %s" % (cfg, r))
+        m = re.search(r"Temporal property (\S+) was violated", r.out)
+        if m and not r.violated:      # wording of this TLC build for a single violated PROPERTY
+            r.violated, r.error = m.group(1), None
         if r.error:
             raise Undecided("M1 %s: TLC %s\n%s" % (cfg, r.error, r.out[-2000:]))
         if role == "asis":
@@ -289,7 +298,10 @@ def judge_m1(ctx, results):
             raise Undecided("M1 %s: CommitQueue.tla violates %s: the specification (design layer) needs attention\n%s"
                             % (cfg, r.violated, r.out[-3000:]))
         if role == "coverage":
-            r.coverage_zero = sorted(set(r.coverage_zero) - UNREACHABLE_BY_DESIGN)
+            # -coverage 1 also prints interim statistics every minute: only the final block counts
+            last = r.out[r.out.rfind("The coverage statistics at"):]
+            zero = re.findall(r"^<(\w+) line \d+, col \d+ to line \d+, col \d+ of module \w+>: 0:0$", last, re.M)
+            r.coverage_zero = sorted(set(zero) - UNREACHABLE_BY_DESIGN)
             if r.coverage_zero:
                 raise Undecided("M1 %s: actions never taken (vacuous model): %s" % (cfg, r.coverage_zero))
         ctx.log("M1 %s (%s): %d generated, %d distinct, depth %d, %.0fs%s" % (
